@@ -84,6 +84,7 @@ static void part_objects() {
     std::vector<PS> sets = {{"default-128", 128, 0, 0, 0, 0, 0, 0, 0, 0}, {"default-80", 80, 0, 0, 0, 0, 0, 0, 0, 0}};
     const double AS[] = {9.313225746154785e-10, 2.98023223876953125e-08, 3.0517578125e-05, 0.0009765625, 0.03125};
     int idx = 0; for (int n : {8, 9}) for (int k : {1, 2}) for (auto lb : {std::pair<int, int>{2, 10}, {3, 7}}) for (auto tb : {std::pair<int, int>{8, 2}, {16, 1}, {4, 4}, {2, 1}, {1, 2}}) { if ((idx++ % 3) != 0 && quick() && tb.first > 2) continue; sets.push_back({strdup(fmt("small-n%d-k%d-l%d-t%d", n, k, lb.first, tb.first).c_str()), 0, n, k, lb.first, lb.second, tb.first, tb.second, AS[(idx / 2) % 5], AS[(idx / 3 + 1) % 5]}); }
+    sets.push_back({"small-n8-k1-l2-t4-noiseless", 0, 8, 1, 2, 10, 4, 2, 0., 0.}); sets.push_back({"small-n9-k2-l3-t3-noiseless", 0, 9, 2, 3, 7, 3, 3, 0., 0.});   // noise parameter exactly 0: exact rows, and still fresh masks
     int K = (int)opti("K", quick() ? 2 : 8);
     for (auto &P : sets) for (int seed = 0; seed < (P.lam ? (quick() ? 2 : 4) : K); seed++) {
         std::string key = fmt("objects/%s/seed=%d", P.name, seed);
@@ -125,6 +126,7 @@ static void part_objects() {
                 int bloc = p / l, q = p % l; // message: s_i * h_q on component bloc: contributes s_i*h_q*( bloc<k ? -key_bloc : 1 ) to the phase
                 for (int j = 0; j < N; j++) { uint32_t msg = 0; if (sk->lwe_key->key[i]) { if (bloc == k) msg = j == 0 ? (uint32_t)ps->tgsw_params->h[q] : 0; else msg = 0u - (uint32_t)sk->tgsw_key->key[bloc].coefs[j] * (uint32_t)ps->tgsw_params->h[q]; }
                     double e = (double)(int32_t)((uint32_t)ph[j] - msg); ball.add(e); if ((j & 7) == 0 || !P.lam) { sb.add(fmt("bk/row=%d", p), e); sb.add(fmt("bk/lane=%d", j & 7), e); sb.add(fmt("bk/keybit=%d", sk->lwe_key->key[i]), e); sb.add(fmt("bk/block=%d", i * 4 / n), e); } } }
+            for (int i = 0; i < n; i++) for (int p = 0; p < kpl; p++) for (int q = 0; q < k; q++) { const Torus32 *m = sk->cloud.bk->bk[i].all_sample[p].a[q].coefsT; int nz = 0; for (int j = 0; j < N; j++) if (m[j]) nz++; if (nz < N / 2) { violation(key, fmt("bootstrapping-key row %d of key bit %d: mask polynomial %d has %d non-zero coefficients of %d: not a fresh uniform mask", p, i, q, nz, N)); i = n; p = kpl; break; } }
             judge(key, "bootstrapping-key rows (all)", ball, abk, false); for (auto &kv : sb.m) judge(key, "bootstrapping-key rows, stratum " + kv.first, kv.second, abk, false);
             // fresh gate ciphertexts
             Mom fr; for (int q = 0; q < 64; q++) fr.add((double)(int32_t)((uint32_t)lwePhase(fresh + q, sk->lwe_key) - ((q & 1) ? 0x20000000u : 0xE0000000u)));
